@@ -281,7 +281,7 @@ Proof using cap_ge sig_range.
         rewrite Hbytes. rewrite (ztake_app_len (width t)) by exact Hl.
         unfold read_into. rewrite Hk. rewrite Hl, Z.eqb_refl. cbn [bind].
         rewrite scalar_roundtrip by exact Hshape.
-        set (r1 := upd r f (VInt z)). set (i1 := advance (width t) i true false).
+        set (r1 := upd r f (VInt z)). match goal with |- context [advance (width t) i ?g ?e] => set (i1 := advance (width t) i g e) end.
         destruct (IH M (f :: known) R s rb HPk Ekk HM Hws Hds' Hsig r1 i1 rest) as (r' & i' & Hrun & Hpost).
         { apply nstream_advance; [exact Hi|]. rewrite Hbytes, zlen_app, Hl. pose proof (zlen_nonneg (rb ++ rest)). pose proof (width_pos t). lia. }
         { unfold i1, advance; cbn [s_after]. rewrite Hbytes. apply zdrop_app_len. exact Hl. }
@@ -306,7 +306,7 @@ Proof using cap_ge sig_range.
         unfold read_into. rewrite Hk.
         destruct (r f) as [|old|] eqn:Erf; try contradiction; try congruence.
         cbn [bind]. rewrite Hshape. rewrite <- Hshr. rewrite zdrop_all. rewrite app_nil_r.
-        set (r1 := upd r f (VBytes bb)). set (i1 := advance (zlen old) i true false).
+        set (r1 := upd r f (VBytes bb)). match goal with |- context [advance (zlen old) i ?g ?e] => set (i1 := advance (zlen old) i g e) end.
         destruct (IH M (f :: known) R s rb HPk Ekk HM Hws Hds' Hsig r1 i1 rest) as (r' & i' & Hrun & Hpost).
         { apply nstream_advance; [exact Hi|]. rewrite Hbytes, zlen_app, Hshr, Hshape. pose proof (zlen_nonneg (rb ++ rest)). lia. }
         { unfold i1, advance; cbn [s_after]. rewrite Hbytes. apply zdrop_app_len. lia. }
@@ -392,7 +392,7 @@ Proof using cap_ge sig_range.
       rewrite Hbytes. rewrite (ztake_app_len (zlen old)) by lia.
       replace (zlen old <? zlen bb) with false by lia.
       rewrite <- Hlen. rewrite zdrop_all, app_nil_r.
-      set (r1 := upd r f (VBytes bb)). set (i1 := advance (zlen old) i true false).
+      set (r1 := upd r f (VBytes bb)). match goal with |- context [advance (zlen old) i ?g ?e] => set (i1 := advance (zlen old) i g e) end.
       destruct (IH M known R s rb HPk Ekk HM Hws Hds' Hsig r1 i1 rest) as (r' & i' & Hrun & Hpost).
       { apply nstream_advance; [exact Hi|]. rewrite Hbytes, zlen_app. pose proof (zlen_nonneg old). pose proof (zlen_nonneg (rb ++ rest)). lia. }
       { unfold i1, advance; cbn [s_after]. rewrite Hbytes. apply zdrop_app_len. lia. }
@@ -455,7 +455,7 @@ Proof using cap_ge sig_range.
       rewrite Hbytes. rewrite (ztake_app_len (zlen bb)) by reflexivity.
       replace (zlen buf <? zlen bb) with false by lia.
       rewrite <- Hbuf. rewrite zdrop_all, app_nil_r. rewrite Hbuf.
-      set (r1 := upd r0 f (VBytes bb)). set (i1 := advance (zlen bb) i true false).
+      set (r1 := upd r0 f (VBytes bb)). match goal with |- context [advance (zlen bb) i ?g ?e] => set (i1 := advance (zlen bb) i g e) end.
       destruct (IH M known R s rb HPk Ekk HM Hws Hds' Hsig r1 i1 rest) as (r' & i' & Hrun & Hpost).
       { apply nstream_advance; [exact Hi|]. rewrite Hbytes, zlen_app. pose proof (zlen_nonneg (rb ++ rest)). lia. }
       { unfold i1, advance; cbn [s_after]. rewrite Hbytes. apply zdrop_app_len. reflexivity. }
